@@ -32,6 +32,10 @@ var carrierSchemas = []struct {
 	{`{"type":"object","required":["k"],"properties":{"k":{"type":"string"}}}`, `{"k":"v"}`, `{"z":1}`},
 	{`{"type":"string","enum":["a","b"]}`, `"a"`, `"c"`},
 	{`{"type":"number","minimum":1.5}`, `2`, `1`},
+	// rejected values that are the zero value of their kind
+	{`{"type":"integer","minimum":1}`, `3`, `0`},
+	{`{"type":"string","minLength":2}`, `"ab"`, `""`},
+	{`{"type":"boolean","enum":[true]}`, `true`, `false`},
 }
 var carrierSimple = []struct {
 	def string
@@ -42,6 +46,8 @@ var carrierSimple = []struct {
 	{`{"type":"string","maxLength":2}`, `"ab"`, `"abcd"`},
 	{`{"type":"string","enum":["a","b"]}`, `"a"`, `"c"`},
 	{`{"type":"boolean"}`, `true`, `"no"`},
+	{`{"type":"integer","minimum":1}`, `3`, `0`},
+	{`{"type":"string","minLength":1}`, `"a"`, `""`},
 }
 
 func baseCarrierDoc() M {
